@@ -12,6 +12,8 @@ queue (FIFO `call_soon`) and executes the same script with the model's primitive
 
 case = {'rounds': [{'batch': [op...], 'fire': [tag...]}...], 'kind': str}
   op = ['raw', tag, matcher] | ['wait', tag, matcher] | ['exec', tag, mode, matcher]
+       (mode: 0 send ok, 1 send raises, 2 send suspends once then ok, 3 suspends once then raises,
+        4 send waits for ever — only cancelling the task ends it)
      | ['msg', conn, cls, [[field, val]...]] | ['cancelfut', tag] | ['canceltask', tag]
   matcher = {'cls': 's'|'p', 'msg': 0|1, 'peer': None|int, 'fields': [[field, exp]...]}
   exp = 'cN' | 'c<k>' | 'pT' | 'pF' | 'pN' | 'pnn' | 'pge<k>' | 'peq<k>' ; conn = 's' | 'pN' | 'p<k>'
@@ -77,6 +79,7 @@ def _validate(case: dict):
                 tag = op[1]
                 assert tag not in spawned, 'tag reused'
                 mode = op[2] if op[0] == 'exec' else 0
+                assert 0 <= mode <= 4, 'exec mode'
                 spawned[tag] = (r, op[0], mode)
                 m = op[-1]
                 names = [f for f, _ in m['fields']]
@@ -87,14 +90,14 @@ def _validate(case: dict):
                 tag = op[1]
                 assert tag in spawned, 'cancel of unknown waiter'
                 sr, kd, mode = spawned[tag]
-                need = 3 if (kd == 'exec' and mode >= 2) else 2
-                if op[0] == 'cancelfut' and kd == 'raw':
-                    need = 0
-                assert r >= sr + need, 'cancel before the caller reached its await'
+                # the caller task runs its first step one iteration after it was spawned
+                need = 0 if (op[0] == 'cancelfut' and kd == 'raw') else 1
+                assert r >= sr + need, 'cancel before the caller task (and its future) exists'
         for tag in rnd['fire']:
             assert tag in spawned and tag not in fired, 'fire of unknown waiter / twice'
             fired.add(tag)
             sr, kd, mode = spawned[tag]
+            assert not (kd == 'exec' and mode == 4), 'mode 4 never arms its timeout'
             need = 3 if (kd == 'exec' and mode >= 2) else 2
             assert r >= sr + need, 'timeout scheduled before the caller armed it'
 
@@ -239,6 +242,8 @@ def _run_impl(case: dict) -> dict:
                 return f
 
             async def send(self, client):
+                if self.mode == 4:
+                    await loop.create_future()      # e.g. a drain() that never returns; only cancellation ends it
                 if self.mode >= 2:
                     await asyncio.sleep(0)
                 if self.mode in (1, 3):
@@ -390,6 +395,7 @@ def _monitor(case: dict, impl: dict) -> list[Violation]:
     snaps = [_parse_snap(s) for s in impl['snaps']]
     matcher_of: dict[int, dict] = {}
     kind_of: dict[int, str] = {}
+    never_awaits: set[int] = set()
     cancelled_task: set[int] = set()
     cancelled_fut: set[int] = set()
     fired_pending: set[int] = set()      # timeout fired while the future was still pending
@@ -423,6 +429,8 @@ def _monitor(case: dict, impl: dict) -> list[Violation]:
             if k in ('raw', 'wait', 'exec'):
                 matcher_of[op[1]] = op[-1]
                 kind_of[op[1]] = k
+                if k == 'exec' and op[2] == 4:
+                    never_awaits.add(op[1])
             if k == 'canceltask' and prev['w'].get(op[1], ('', ''))[1] == '-':
                 cancelled_task.add(op[1])
             if k == 'cancelfut':
@@ -482,7 +490,8 @@ def _monitor(case: dict, impl: dict) -> list[Violation]:
                     impl['snaps'][-1], sorted(ok))
         if o.startswith('r') and o != 'r?' and f != 'R' + o[1:]:
             add('C12-wrong-result', f'caller of request {tag} got message {o} but its future is {f}', impl['snaps'][-1])
-        if f.startswith('R') and o == '-' and kind_of.get(tag) is not None:
+        # (a mode-4 execute() is still inside command.send — it has not started to wait for the reply)
+        if f.startswith('R') and o == '-' and kind_of.get(tag) is not None and tag not in never_awaits:
             add('C12-caller-not-answered', f'request {tag} completed with {f} but its caller is still waiting at '
                 'quiescence', impl['snaps'][-1])
         send_failed = kind_of.get(tag) == 'exec' and o == 'S'      # execute() re-raises the failure of command.send
@@ -494,6 +503,11 @@ def _monitor(case: dict, impl: dict) -> list[Violation]:
         if t == '?' or final['w'].get(int(t), ('P', ''))[0] != 'P':
             add('C12-residue', f'expected-response list still holds completed/cancelled request {t} at quiescence',
                 impl['snaps'][-1], 'only pending requests are listed')
+    for tag, (f, o) in final['w'].items():
+        if f == 'P' and o != '-' and str(tag) in final['order']:
+            add('C12-residue-caller-gone', f'caller of request {tag} is gone (it got {o!r}) but the request is still '
+                'pending in the expected-response list at quiescence: nobody waits for it and nothing removes it',
+                impl['snaps'][-1], 'a cancelled / failed request is cancelled and removed')
     for tag, (f, _o) in final['w'].items():
         if f == 'P' and str(tag) not in final['order']:
             add('C12-pending-unlisted', f'request {tag} is pending but not in the expected-response list',
@@ -588,7 +602,7 @@ def _gen_case(rng: random.Random) -> dict:
     def spawn(r):
         nonlocal tag, shared
         wk = rng.choice(['raw', 'wait', 'wait', 'exec'])
-        mode = rng.choice([0, 0, 0, 2, 1, 3]) if wk == 'exec' else 0
+        mode = rng.choice([0, 0, 0, 2, 2, 1, 3, 4]) if wk == 'exec' else 0
         m = _gen_matcher(rng, wk, shared if (kind == 'same-matcher' or rng.random() < 0.5) else None)
         if shared is None:
             shared = m
@@ -606,7 +620,7 @@ def _gen_case(rng: random.Random) -> dict:
     p_fire = {'timeouts': 0.8, 'burst': 0.3}.get(kind, 0.45)
     for (t, sr, wk, mode, m) in waiters:
         need = 3 if (wk == 'exec' and mode >= 2) else 2
-        if sr + need < nrounds and rng.random() < p_fire and not (wk == 'exec' and mode in (1, 3)):
+        if sr + need < nrounds and rng.random() < p_fire and not (wk == 'exec' and mode in (1, 3, 4)):
             r = rng.randint(sr + need, nrounds - 1)
             if len(rounds[r]['fire']) < 8:
                 rounds[r]['fire'].append(t)
@@ -624,11 +638,13 @@ def _gen_case(rng: random.Random) -> dict:
             if rng.random() < 0.3:
                 extra.append([mop[0], mop[1], mop[2], [list(x) for x in mop[3]]])    # the same reply twice, back-to-back
         for (t, sr, wk, mode, m) in alive:
-            need = 3 if (wk == 'exec' and mode >= 2) else 2
             if rng.random() < 0.08:
-                if wk == 'raw' or r >= sr + need:
+                if wk == 'raw' or r >= sr + 1:
                     extra.append(['cancelfut', t])
-            if rng.random() < 0.08 and r >= sr + need:
+            if rng.random() < 0.08 and r >= sr + 1:
+                extra.append(['canceltask', t])
+            # execute() cancelled while it is suspended in command.send
+            if wk == 'exec' and mode >= 2 and rng.random() < 0.3 and (r == sr + 1 or (mode == 4 and r > sr and rng.random() < 0.5)):
                 extra.append(['canceltask', t])
         rng.shuffle(extra)
         rounds[r]['batch'] += extra
@@ -665,6 +681,11 @@ DIRECTED = [
     {'kind': 'directed-exec', 'rounds': [{'batch': [['exec', 0, 1, _mk([[4, 'c1']])], ['exec', 1, 0, _mk([[4, 'c1']])]], 'fire': []},
                                          {'batch': [_REPLY], 'fire': []}, {'batch': [_REPLY], 'fire': []},
                                          {'batch': [], 'fire': []}]},
+    # execute() is cancelled while suspended in command.send (send resumes by itself / only by the cancellation)
+    {'kind': 'directed-cancel-during-send', 'rounds': [
+        {'batch': [['exec', 0, 2, _mk([[4, 'c1']])], ['exec', 1, 4, _mk([[4, 'c1']])], ['exec', 2, 3, _mk([[4, 'c1']])]], 'fire': []},
+        {'batch': [['canceltask', 0], ['canceltask', 2]], 'fire': []}, {'batch': [['canceltask', 1]], 'fire': []},
+        {'batch': [], 'fire': []}]},
 ]
 
 
@@ -685,8 +706,13 @@ def _features(case: dict, impl: dict) -> set[str]:
     i = 0
     prev = None
     rounds = case['rounds'] + [{'batch': [], 'fire': []}] * EXTRA_ROUNDS
-    for rnd in rounds:
+    spawn_round = {}
+    for r, rnd in enumerate(rounds):
+        # exec callers that are (still) inside command.send during this round's batch
+        sending = {t for t, (sr, mode) in spawn_round.items() if (mode in (2, 3) and r == sr + 1) or (mode == 4 and r > sr)}
         for op in rnd['batch']:
+            if op[0] == 'exec':
+                spawn_round[op[1]] = (r, op[2])
             cur = snaps[i]
             if op[0] == 'msg' and prev is not None:
                 done_listed = [t for t in prev['order'] if t != '?' and prev['w'].get(int(t), ('P',))[0] != 'P']
@@ -699,6 +725,9 @@ def _features(case: dict, impl: dict) -> set[str]:
                     feats.add('one-message-completes-several')
             if op[0] in ('cancelfut', 'canceltask'):
                 feats.add(op[0])
+                if op[0] == 'canceltask' and prev is not None and op[1] in prev['w'] and \
+                        prev['w'][op[1]][1] == '-' and op[1] in sending:
+                    feats.add('task-cancelled-during-send')
             if op[0] == 'exec':
                 feats.add(f'exec-mode{op[2]}')
             if op[0] in ('raw', 'wait', 'exec'):
@@ -727,19 +756,20 @@ class C12(Property):
             '(constants, predicates, several fields, missing attributes), message batches delivered back-to-back in one '
             'task step or across iterations, timeouts fired at chosen iterations, future/task cancellations, derived '
             'from VERIF_SEED; a case is non-trivial when a message completed a request AND at least one of: a timeout '
-            'fired on a waiting caller, a cancellation, a failing send, a message delivered while a completed future was '
+            'fired on a waiting caller, a cancellation (also of execute() inside command.send), a failing send, a message '
+            'delivered while a completed future was '
             'still listed; distinct = distinct canonical script')
     assumptions = [
         'asyncio semantics (FIFO call_soon, done-callbacks run one iteration later, Task.cancel/must_cancel, '
         'asyncio.Timeout) are modelled in the Lean driver\'s ready-queue mirror and validated only differentially',
         'field predicates are total and do not raise; expected values are None/ints (no bool/int aliasing)',
         'no MESSAGE_MAP handler / EventBus listener suspends between two buffered messages (true for the classes used)',
-        'a caller is cancelled / timed out only while it awaits the future (cancellation of execute() during '
-        'command.send is outside the model)',
+        'a caller task is cancelled only after its first step ran (a task cancelled before it starts registers nothing)',
     ]
     modelled = ('ExpectedResponse.matches; create_server/peer_response_future, register_response_future, '
                 '_remove_response_future; wait_for_server/peer_message incl. timeout path; completion loop of '
-                'on_message_received; SoulSeekClient.execute (register, send ok/raises/suspends, await with timeout). '
+                'on_message_received; SoulSeekClient.execute (register, send ok/raises/suspends/is cancelled while suspended, '
+                'await with timeout). '
                 'Not modelled: MESSAGE_MAP handlers and bus listeners that run before the completion loop, '
                 'asyncio.wait-based use in _make_indirect_connection (only its fut.cancel()), real sockets/reader')
 
@@ -775,7 +805,8 @@ class C12(Property):
             for f in feats:
                 res.count('feature:' + f)
             if 'completed-by-message' in feats and feats & {'timeout-fired-on-waiting-caller', 'cancelfut', 'canceltask',
-                                                            'exec-mode1', 'exec-mode3', 'msg-while-done-future-listed'}:
+                                                            'exec-mode1', 'exec-mode3', 'msg-while-done-future-listed',
+                                                            'task-cancelled-during-send'}:
                 res.nontrivial_keys.add(common.sha(c['rounds']))
             if model is not None:
                 res.traces_validated += 1
